@@ -271,9 +271,44 @@ def run_table_sharing(chk, spec):
 		chk.fail("a former sharer whose partners were dropped and collected is writable", "alias/spurious-refusal/former-sharer/table-column", f"{spec!r}: after the sharer was collected t[0, {pos}] = 43 raised {s2!r}")
 
 
+def run_promote_with_holder(chk, spec):
+	"""something else (a copy-module clone, a row, a running iterator) keeps a vector's OLD storage alive while an in-place write promotes the vector; once it is
+	dropped, fresh vectors whose storage reuses the freed identity share with nobody and must be writable"""
+	import copy
+	n, how = spec["n"], spec["holder"]
+	chk.judged("sharing", ("promote-with-holder", how, n, spec["wide"]))
+	wide = {"float": 2.5, "complex": 1j}[spec["wide"]]
+	if how in ("copy.copy", "iterator"):
+		v = Vector(list(range(1, n + 1)))
+		holder = copy.copy(v) if how == "copy.copy" else iter(v)
+		if how == "iterator":
+			next(holder, None)
+		w = call(v.__setitem__, 0, wide)
+		owner = v
+	else:
+		t = Table([Vector(list(range(1, n + 1)), name="a"), Vector(list(range(n)), name="b")])
+		holder = t[0]
+		w = call(t.__setitem__, (0, "a"), wide) if how == "row-then-cell" else call(lambda: t.cols()[0].__setitem__(0, wide))
+		owner = t
+	if not w.ok:
+		chk.skip("promote-with-holder-write-refused")
+		return
+	del holder
+	gc.collect()
+	fresh = [Vector([0] * n) for _ in range(spec["flood"])]
+	refused = [k for k, f in enumerate(fresh) if not call(f.__setitem__, 0, 1).ok]
+	if refused:
+		chk.fail("a vector that shares storage with no other live vector is always writable (fresh vectors)", f"alias/spurious-refusal/fresh-vector-after-identity-reuse/promotion-while-{how}-held-the-old-storage",
+			f"{spec!r}: after the promotion and after the {how} was dropped, {len(refused)} of {len(fresh)} fresh length-{n} vectors refused their first write")
+		return
+	o2 = call(owner.__setitem__, (0, "a") if isinstance(owner, Table) else 0, wide)
+	if not o2.ok:
+		chk.fail("a vector that shares storage with no other live vector is always writable", f"alias/spurious-refusal/promoted-vector/{how}", f"{spec!r}: a later write to the promoted vector raised {o2!r}")
+
+
 DERIVED_OPS = ["empty-left-lshift-vector", "empty-left-lshift-tuple", "typed-empty-lshift-vector", "empty-mask-lshift-vector", "lshift-empty-vector", "copy", "slice-full", "slice-0-n", "slice-0-big", "slice-neg", "slice-step1", "mask-all", "mask-all-vector", "T", "lshift-empty", "rlshift-empty", "lshift-empty-tuple",
 	"sort", "fillna", "dropna", "pos", "cast-same", "to_object", "index-all", "table-column", "table-column-slice", "unique", "copy-of-copy", "rshift-column", "lshift-none-then-slice"]
-RUNNERS = {"table_sharing": run_table_sharing, "history": run_history, "burst": run_burst, "sharing": run_sharing, "derived": run_derived}
+RUNNERS = {"promote_with_holder": run_promote_with_holder, "table_sharing": run_table_sharing, "history": run_history, "burst": run_burst, "sharing": run_sharing, "derived": run_derived}
 
 
 def setup(chk):
@@ -295,6 +330,10 @@ def run(chk):
 		for kind in ("int", "str", "float", "object", "object-nullable"):
 			for n in (1, 2, 5):
 				chk.case("derived", {"op": op, "kind": kind, "n": n, "seed": rng.randrange(10**9)}, "derived")
+	for how in ("copy.copy", "iterator", "row-then-cell", "row-then-view"):
+		for n in (1, 2, 3, 5, 8):
+			for wide in ("float", "complex"):
+				chk.case("promote_with_holder", {"holder": how, "n": n, "wide": wide, "flood": 60 if chk.quick() else 300}, "promote-with-holder")
 	for form in ("ctor", "rshift", "ctor3", "t>>col"):
 		for n in (1, 2, 3):
 			chk.case("table_sharing", {"scenario": "same-vector-twice", "form": form, "n": n, "c": 2, "pos": 0, "seed": rng.randrange(10**9)}, "table-sharing")
